@@ -22,6 +22,9 @@
  *                                -> "ro" | "write dist <id>" | "write attr <i>" | "write other+<offset>"
  *   drop                         destroys both topologies
  *   cinit U / cfini U            hwloc_components_init / _fini directly, U = users=<n> reg=<0|1> before -> the same after
+ *   reg <op> <variant> <a> <b> U  one public entry point that reaches the component registry, on the path named by op/variant,
+ *                                over a pool of independent topologies (see "registry histories" below) -> <result> + U afterwards
+ *   reglive <k> U                k = topologies (+ bare references) alive according to the harness -> consistent
  * S is part of the op line (the model is stateless); in replay mode a line whose S differs from the actual state
  * answers "state-mismatch <actual>".
  *
@@ -41,6 +44,7 @@
 #include <ucontext.h>
 #include <dirent.h>
 #include <unistd.h>
+#include <fcntl.h>
 
 static FILE *fops, *fout;
 static int replaying;
@@ -300,10 +304,328 @@ static int state_matches(hwloc_topology_t t, const char *line, char *res) {
 }
 static void users_str(char *res) { sprintf(res, "users=%u reg=%d", hwloc_components_users, hwloc_disc_components != NULL); }
 
+/* ------------------------------------------------------------------ registry histories (C17 (b): every public entry point
+ * that reaches the component registry, on every path, interleaved with live topologies in every lifecycle state)
+ *
+ *   reg <op> <variant> <a> <b> users=<n> reg=<0|1>   ->   <result> users=<n'> reg=<b'>
+ *   reglive <k> users=<n> reg=<0|1>                  ->   consistent          (k = topologies alive according to the harness)
+ *
+ * users / reg are read from components.c's statics (absolute: the pool below + T + A + outstanding cinit).  The op/variant
+ * pair names the entry point AND the path through it, so that the result is deterministic and the stateless model can
+ * answer both the result and the count afterwards.  A line whose precondition does not hold (replay of a shrunk file)
+ * answers "no-slot".
+ *
+ * pool: NSLOT independent topologies (empty / inited / configured / loaded / failed (load failed: may only be destroyed) /
+ * adopted from shared memory), NDIFF diff lists, NBUF XML buffers, one shmem segment (file + reserved address range) per slot. */
+#define NSLOT 6
+#define NDIFF 3
+#define NBUF 4
+#define SEGLEN (256UL << 20)
+enum { S_EMPTY, S_INIT, S_CONF, S_LOADED, S_FAILED, S_ADOPTED };
+static const char *SNAME[] = { "empty", "inited", "configured", "loaded", "failed", "adopted" };
+static struct { hwloc_topology_t t; int st, willfail, reconf; } P[NSLOT];
+static struct { hwloc_topology_diff_t d; int used, complex; } D[NDIFF];
+static struct { char *buf; int len, kind; } X[NBUF];          /* kind 1 = topology XML, 2 = diff XML */
+static struct { int written, fd; size_t len; char path[600]; } G[NSLOT];
+static char *SHM; static char f_topo[600], f_diff[600], f_none[600], f_unwr[700];
+static int topofile_ok, difffile_ok;
+static unsigned long st_reg, st_reg_err, st_reg_toocomplex, st_reg_with_T, st_reg_with_A, st_reg_users0, st_reg_pool_inited,
+  st_reg_pool_configured, st_reg_pool_loaded, st_reg_pool_adopted, st_reg_pool_failed, st_reglive, st_reg_noslot,
+  st_reg_init, st_reg_destroy, st_reg_dup, st_reg_setsrc, st_reg_load, st_reg_export, st_reg_diffbuild, st_reg_diffexp,
+  st_reg_diffload, st_reg_shmem, st_reg_adopt_ok;
+
+static unsigned cinit_out;     /* hwloc_components_init calls of `cinit` lines not yet undone by `cfini` */
+static unsigned pool_live(void) { unsigned n = 0; for (int i = 0; i < NSLOT; i++) if (P[i].st != S_EMPTY) n++; return n; }
+static unsigned live_refs(void) { return pool_live() + (T ? 1 : 0) + (A ? 1 : 0) + cinit_out; }
+static int pool_has(int st) { for (int i = 0; i < NSLOT; i++) if (P[i].st == st) return 1; return 0; }
+/* Shared-memory segments live at fixed addresses far away from everything the kernel, glibc or the sanitizer runtime map
+ * on their own (non-hinted mappings go top-down from the stack, ASan's allocator sits at 0x6000'0000'0000): no reservation is
+ * kept, so nothing has to be unmapped / re-reserved around the hwloc calls (a MAP_FIXED re-reservation could replace a mapping
+ * the sanitizer created in the meantime).  The `busy` variants occupy the range for the duration of the call. */
+static char *seg_addr(int g) { return SHM + (size_t) g * SEGLEN; }
+static void *seg_block(int g, size_t len) {
+  void *p = mmap(seg_addr(g), len, PROT_NONE, MAP_PRIVATE | MAP_ANONYMOUS | MAP_NORESERVE | MAP_FIXED_NOREPLACE, -1, 0);
+  if (p == MAP_FAILED) { perror("seg_block"); abort(); }
+  if (p != (void *) seg_addr(g)) { munmap(p, len); fprintf(stderr, "seg_block: range not free\n"); abort(); }
+  return p;
+}
+static void reg_setup(const char *prefix) {
+  for (unsigned long base = 0x210000000000UL; !SHM && base < 0x400000000000UL; base += 0x010000000000UL) {
+    void *p = mmap((void *) base, NSLOT * SEGLEN, PROT_NONE, MAP_PRIVATE | MAP_ANONYMOUS | MAP_NORESERVE | MAP_FIXED_NOREPLACE, -1, 0);
+    if (p == MAP_FAILED) continue;
+    munmap(p, NSLOT * SEGLEN);
+    if (p == (void *) base) SHM = p;
+  }
+  if (!SHM) { fprintf(stderr, "no free address range for the shmem segments\n"); exit(2); }
+  snprintf(f_topo, sizeof f_topo, "%s.topo.xml", prefix); snprintf(f_diff, sizeof f_diff, "%s.diff.xml", prefix);
+  snprintf(f_none, sizeof f_none, "%s.does-not-exist.xml", prefix); snprintf(f_unwr, sizeof f_unwr, "%s.no-such-dir/x.xml", prefix);
+  for (int g = 0; g < NSLOT; g++) { snprintf(G[g].path, sizeof G[g].path, "%s.shm%d", prefix, g); G[g].fd = -1; }
+}
+static const char *errs(int rc) {
+  if (rc >= 0) return "ok";
+  switch (errno) { case EINVAL: return "EINVAL"; case EBUSY: return "EBUSY"; case ENOSYS: return "ENOSYS"; default: return "fail"; }
+}
+static const char *okfail(int rc) { return rc < 0 ? (errno == ENOSYS ? "ENOSYS" : "fail") : "ok"; }
+static hwloc_topology_t any_live(void) {
+  for (int i = 0; i < NSLOT; i++) if (P[i].st != S_EMPTY) return P[i].t;
+  return T ? T : A;
+}
+static void free_xbuf(int b) {
+  if (!X[b].kind) return;
+  if (hwloc_components_users) hwloc_free_xmlbuffer(any_live(), X[b].buf);
+  else free(X[b].buf);     /* hwloc_free_xmlbuffer asserts that some topology holds the registry (see the report) */
+  X[b].buf = NULL; X[b].kind = 0;
+}
+/* hand-built diff lists: A = an OBJ_ATTR entry, C = a TOO_COMPLEX entry */
+static hwloc_topology_diff_t hand_diff(const char *shape) {
+  hwloc_topology_diff_t first = NULL, *tail = &first;
+  for (unsigned i = 0; shape[i]; i++) {
+    hwloc_topology_diff_t d = calloc(1, sizeof *d);
+    if (shape[i] == 'C') { d->too_complex.type = HWLOC_TOPOLOGY_DIFF_TOO_COMPLEX; d->too_complex.obj_depth = 0; d->too_complex.obj_index = 0; }
+    else {
+      d->obj_attr.type = HWLOC_TOPOLOGY_DIFF_OBJ_ATTR; d->obj_attr.obj_depth = 0; d->obj_attr.obj_index = 0;
+      switch (i % 3) {
+      case 0: d->obj_attr.diff.uint64.type = HWLOC_TOPOLOGY_DIFF_OBJ_ATTR_SIZE; d->obj_attr.diff.uint64.index = 0;
+              d->obj_attr.diff.uint64.oldvalue = 4096; d->obj_attr.diff.uint64.newvalue = 8192; break;
+      case 1: d->obj_attr.diff.string.type = HWLOC_TOPOLOGY_DIFF_OBJ_ATTR_NAME; d->obj_attr.diff.string.name = NULL;
+              d->obj_attr.diff.string.oldvalue = (char *) "old"; d->obj_attr.diff.string.newvalue = (char *) "new"; break;
+      default: d->obj_attr.diff.string.type = HWLOC_TOPOLOGY_DIFF_OBJ_ATTR_INFO; d->obj_attr.diff.string.name = (char *) "verifinfo";
+              d->obj_attr.diff.string.oldvalue = (char *) "a"; d->obj_attr.diff.string.newvalue = (char *) "b"; break;
+      }
+    }
+    *tail = d; tail = &d->generic.next;
+  }
+  return first;
+}
+static void hand_free(hwloc_topology_diff_t d) { while (d) { hwloc_topology_diff_t n = d->generic.next; free(d); d = n; } }
+/* variant -> the diff list to export (returns 0 when the variant's precondition fails); *hand: free with hand_free */
+static int diff_for(const char *var, int d, hwloc_topology_diff_t *out, int *hand, int *complex) {
+  *hand = 1; *complex = 0;
+  if (!strcmp(var, "empty")) { *out = NULL; return 1; }
+  if (!strcmp(var, "hand-attrs")) { *out = hand_diff("AAA"); return 1; }
+  if (!strcmp(var, "hand-complex-first")) { *out = hand_diff("CAA"); *complex = 1; return 1; }
+  if (!strcmp(var, "hand-complex-mid")) { *out = hand_diff("ACA"); *complex = 1; return 1; }
+  if (!strcmp(var, "hand-complex-last")) { *out = hand_diff("AAC"); *complex = 1; return 1; }
+  if (!strcmp(var, "hand-complex-only")) { *out = hand_diff("C"); *complex = 1; return 1; }
+  if (!strcmp(var, "unwritable")) { *out = hand_diff("AA"); return 1; }
+  if (d < 0 || d >= NDIFF || !D[d].used) return 0;
+  if (!strcmp(var, "slot-ok") && !D[d].complex) { *hand = 0; *out = D[d].d; return 1; }
+  if (!strcmp(var, "slot-complex") && D[d].complex) { *hand = 0; *out = D[d].d; *complex = 1; return 1; }
+  return 0;
+}
+static const char BAD_TOPO_XML[] =
+  "<?xml version=\"1.0\" encoding=\"UTF-8\"?>\n<!DOCTYPE topology SYSTEM \"hwloc2.dtd\">\n<topology version=\"2.0\">\n"
+  "  <object type=\"Machine\" os_index=\"0\" cpuset=\"0x1\" complete_cpuset=\"0x1\" nodeset=\"0x1\" complete_nodeset=\"0x1\">\n"
+  "    <object type=\"NoSuchType\" os_index=\"0\"/>\n  </object>\n</topology>\n";
+
+static int slot_of(const char *s) { return (s[0] >= '0' && s[0] <= '9' && !s[1]) ? s[0] - '0' : -1; }
+#define PS(i) ((i) >= 0 && (i) < NSLOT ? P[i].st : -1)
+#define NEED(c) do { if (!(c)) return 0; } while (0)
+
+/* executes one registry op; returns 0 when its precondition does not hold (nothing was called) */
+static int reg_exec(const char *op, const char *var, const char *sa, const char *sb, char *res) {
+  int a = slot_of(sa), b = slot_of(sb), rc;
+  errno = 0;
+  if (!strcmp(op, "init")) {
+    NEED(PS(a) == S_EMPTY);
+    rc = hwloc_topology_init(&P[a].t); strcpy(res, okfail(rc));
+    if (!rc) { P[a].st = S_INIT; P[a].willfail = 0; P[a].reconf = 0; } st_reg_init++;
+  } else if (!strcmp(op, "setsrc")) {
+    NEED(PS(a) == S_INIT || PS(a) == S_CONF);
+    hwloc_topology_t t = P[a].t; int ok = 0, wf = 0;
+    if (!strcmp(var, "synth-ok")) { NEED(b >= 0); rc = hwloc_topology_set_synthetic(t, SYNTH[(unsigned) b % (sizeof SYNTH / sizeof *SYNTH)]); ok = 1; }
+    else if (!strcmp(var, "synth-bad")) rc = hwloc_topology_set_synthetic(t, "pack:2 bogus:3 pu:1");
+    else if (!strcmp(var, "xml-ok")) { NEED(topofile_ok); rc = hwloc_topology_set_xml(t, f_topo); ok = 1; }
+    else if (!strcmp(var, "xml-nofile")) rc = hwloc_topology_set_xml(t, f_none);
+    else if (!strcmp(var, "xmlbuf-ok")) { NEED(b >= 0 && b < NBUF && X[b].kind == 1); rc = hwloc_topology_set_xmlbuffer(t, X[b].buf, X[b].len); ok = 1; }
+    else if (!strcmp(var, "xmlbuf-bad")) rc = hwloc_topology_set_xmlbuffer(t, "this is <<not xml", 18);
+    else if (!strcmp(var, "xmlbuf-loadfail")) { rc = hwloc_topology_set_xmlbuffer(t, BAD_TOPO_XML, (int) sizeof BAD_TOPO_XML); ok = 1; wf = 1; }
+    else return 0;
+    strcpy(res, okfail(rc));
+    /* PARKED (genuine hwloc defect outside C17, see the report): a second successful set_synthetic / set_xml / set_xmlbuffer on the
+     * same topology instantiates its backend with phases = component phases & ~excluded phases of the FIRST backend (= 0 after an
+     * XML / synthetic one), so a later hwloc_topology_load aborts on assert(global_backend->phases == HWLOC_DISC_PHASE_GLOBAL)
+     * (topology.c, hwloc_discover).  Reconfiguring is exercised, loading a reconfigured topology is not: it may only be destroyed. */
+    if (ok && !rc) { if (P[a].st == S_CONF) P[a].reconf = 1; P[a].st = S_CONF; P[a].willfail = wf; }
+    if (!ok) st_reg_err++;
+    st_reg_setsrc++;
+  } else if (!strcmp(op, "setcomp")) {
+    NEED(PS(a) == S_INIT || PS(a) == S_CONF);
+    if (!strcmp(var, "ok")) rc = hwloc_topology_set_components(P[a].t, HWLOC_TOPOLOGY_COMPONENTS_FLAG_BLACKLIST, "no_os");
+    else if (!strcmp(var, "unknown")) { rc = hwloc_topology_set_components(P[a].t, HWLOC_TOPOLOGY_COMPONENTS_FLAG_BLACKLIST, "verif-no-such-component"); st_reg_err++; }
+    else if (!strcmp(var, "badflags")) { rc = hwloc_topology_set_components(P[a].t, 0, "no_os"); st_reg_err++; }
+    else return 0;
+    strcpy(res, okfail(rc)); st_reg_setsrc++;
+  } else if (!strcmp(op, "load")) {
+    NEED(a >= 0 && !P[a].reconf);
+    if (!strcmp(var, "ok")) { NEED(PS(a) == S_CONF && !P[a].willfail); }
+    else if (!strcmp(var, "native")) { NEED(PS(a) == S_INIT); }
+    else if (!strcmp(var, "fail")) { NEED(PS(a) == S_CONF && P[a].willfail); st_reg_err++; }
+    else if (!strcmp(var, "busy")) { NEED(PS(a) == S_LOADED || PS(a) == S_ADOPTED); st_reg_err++; }
+    else return 0;
+    rc = hwloc_topology_load(P[a].t); strcpy(res, !strcmp(var, "busy") ? errs(rc) : okfail(rc));
+    if (P[a].st == S_INIT || P[a].st == S_CONF) P[a].st = rc ? S_FAILED : S_LOADED;
+    st_reg_load++;
+  } else if (!strcmp(op, "dup")) {
+    hwloc_topology_t src = !strcmp(sa, "T") ? T : a >= 0 ? P[a].t : NULL;
+    NEED(PS(b) == S_EMPTY && src);
+    if (!strcmp(var, "ok")) { NEED(!strcmp(sa, "T") || PS(a) == S_LOADED || PS(a) == S_ADOPTED); }
+    else if (!strcmp(var, "unloaded")) { NEED(PS(a) == S_INIT || PS(a) == S_CONF); st_reg_err++; }
+    else return 0;
+    rc = hwloc_topology_dup(&P[b].t, src); strcpy(res, errs(rc));
+    if (!rc) { P[b].st = S_LOADED; P[b].willfail = 0; P[b].reconf = 0; } st_reg_dup++;
+  } else if (!strcmp(op, "destroy")) {
+    NEED(PS(a) > S_EMPTY && !strcmp(var, SNAME[P[a].st]));
+    hwloc_topology_destroy(P[a].t);
+    P[a].t = NULL; P[a].st = S_EMPTY; strcpy(res, "ok"); st_reg_destroy++;
+  } else if (!strcmp(op, "export")) {
+    NEED(PS(a) == S_LOADED || PS(a) == S_ADOPTED);
+    if (!strcmp(var, "buf")) {
+      NEED(b >= 0 && b < NBUF && !X[b].kind);
+      rc = hwloc_topology_export_xmlbuffer(P[a].t, &X[b].buf, &X[b].len, 0); if (!rc) X[b].kind = 1;
+    } else if (!strcmp(var, "file")) { rc = hwloc_topology_export_xml(P[a].t, f_topo, 0); if (!rc) topofile_ok = 1; }
+    else if (!strcmp(var, "badflags")) { rc = hwloc_topology_export_xml(P[a].t, f_none, ~0UL); st_reg_err++; }
+    else return 0;
+    strcpy(res, okfail(rc)); st_reg_export++;
+  } else if (!strcmp(op, "freebuf")) {
+    NEED(b >= 0 && b < NBUF && X[b].kind && hwloc_components_users);
+    free_xbuf(b); strcpy(res, "ok"); st_reg_export++;
+  } else if (!strcmp(op, "diffbuild")) {
+    hwloc_topology_t t2 = NULL;
+    NEED(PS(a) == S_LOADED && b >= 0 && b < NDIFF && !D[b].used);
+    if (!strcmp(var, "complex")) {
+      if (hwloc_topology_init(&t2) || hwloc_topology_set_synthetic(t2, "pack:3 pu:5") || hwloc_topology_load(t2)) { strcpy(res, okfail(-1)); if (t2) hwloc_topology_destroy(t2); return 1; }
+    } else if (!strcmp(var, "same") || !strcmp(var, "mem")) {
+      if (hwloc_topology_dup(&t2, P[a].t)) { strcpy(res, okfail(-1)); return 1; }
+      if (!strcmp(var, "mem")) {
+        hwloc_obj_t n = hwloc_get_obj_by_type(t2, HWLOC_OBJ_NUMANODE, 0), o;
+        if (n) { n->attr->numanode.local_memory += 4096; for (o = n; o; o = o->parent) o->total_memory += 4096; }
+      }
+    } else return 0;
+    rc = hwloc_topology_diff_build(P[a].t, t2, 0, &D[b].d);
+    hwloc_topology_destroy(t2);
+    if (rc < 0) strcpy(res, okfail(rc));
+    else { D[b].used = 1; D[b].complex = rc == 1; strcpy(res, rc == 1 ? "toocomplex" : "ok"); }
+    st_reg_diffbuild++;
+  } else if (!strcmp(op, "diffexpbuf") || !strcmp(op, "diffexpfile")) {
+    hwloc_topology_diff_t d; int hand, cx;
+    NEED(diff_for(var, a, &d, &hand, &cx));
+    if (op[7] == 'b') {
+      char *buf = NULL; int len = 0;
+      NEED(strcmp(var, "unwritable"));
+      if (!cx) { NEED(b >= 0 && b < NBUF && !X[b].kind); }
+      rc = hwloc_topology_diff_export_xmlbuffer(d, "verifref", &buf, &len);
+      if (!rc && !cx) { X[b].buf = buf; X[b].len = len; X[b].kind = 2; }
+    } else {
+      rc = hwloc_topology_diff_export_xml(d, strcmp(var, "empty") ? "verifref" : NULL, !strcmp(var, "unwritable") ? f_unwr : f_diff);
+      if (!rc) difffile_ok = 1;
+    }
+    strcpy(res, errs(rc) );
+    if (!strcmp(var, "unwritable")) { strcpy(res, okfail(rc)); st_reg_err++; }
+    if (cx) { st_reg_toocomplex++; st_reg_err++; }
+    if (hand) hand_free(d);
+    st_reg_diffexp++;
+  } else if (!strcmp(op, "diffloadbuf") || !strcmp(op, "diffloadfile")) {
+    hwloc_topology_diff_t d = NULL; char *ref = NULL;
+    if (op[8] == 'b') {
+      if (!strcmp(var, "ok")) { NEED(b >= 0 && b < NBUF && X[b].kind == 2); rc = hwloc_topology_diff_load_xmlbuffer(X[b].buf, X[b].len, &d, &ref); }
+      else if (!strcmp(var, "trunc")) { NEED(b >= 0 && b < NBUF && X[b].kind == 2); rc = hwloc_topology_diff_load_xmlbuffer(X[b].buf, X[b].len / 2, &d, NULL); }
+      else if (!strcmp(var, "notdiff")) { NEED(b >= 0 && b < NBUF && X[b].kind == 1); rc = hwloc_topology_diff_load_xmlbuffer(X[b].buf, X[b].len, &d, &ref); }
+      else if (!strcmp(var, "garbage")) rc = hwloc_topology_diff_load_xmlbuffer("this is <<not xml", 18, &d, &ref);
+      else if (!strcmp(var, "empty")) rc = hwloc_topology_diff_load_xmlbuffer("", 0, &d, &ref);
+      else return 0;
+    } else {
+      if (!strcmp(var, "ok")) { NEED(difffile_ok); rc = hwloc_topology_diff_load_xml(f_diff, &d, &ref); }
+      else if (!strcmp(var, "nofile")) rc = hwloc_topology_diff_load_xml(f_none, &d, &ref);
+      else if (!strcmp(var, "notdiff")) { NEED(topofile_ok); rc = hwloc_topology_diff_load_xml(f_topo, &d, NULL); }
+      else return 0;
+    }
+    strcpy(res, okfail(rc));
+    if (strcmp(var, "ok")) st_reg_err++;
+    if (d) hwloc_topology_diff_destroy(d);
+    free(ref); st_reg_diffload++;
+  } else if (!strcmp(op, "diffdestroy")) {
+    NEED(b >= 0 && b < NDIFF && D[b].used);
+    hwloc_topology_diff_destroy(D[b].d); D[b].d = NULL; D[b].used = 0; strcpy(res, "ok");
+  } else if (!strcmp(op, "getlen")) {
+    size_t len = 0;
+    NEED(PS(a) == S_LOADED);
+    rc = hwloc_shmem_topology_get_length(P[a].t, &len, !strcmp(var, "flags") ? 1UL : 0UL);
+    if (strcmp(var, "ok")) st_reg_err++;
+    strcpy(res, errs(rc)); st_reg_shmem++;
+  } else if (!strcmp(op, "shmwrite")) {
+    size_t len = 0; int g = b;
+    NEED(PS(a) == S_LOADED && PS(g) == S_EMPTY);
+    if (G[g].fd < 0) G[g].fd = open(G[g].path, O_RDWR | O_CREAT | O_TRUNC, 0600);
+    NEED(G[g].fd >= 0 && !hwloc_shmem_topology_get_length(P[a].t, &len, 0) && len <= SEGLEN);
+    if (!strcmp(var, "ok")) {
+      rc = hwloc_shmem_topology_write(P[a].t, G[g].fd, 0, seg_addr(g), len, 0);
+      if (!rc) { G[g].written = 1; G[g].len = len; }
+    } else {
+      st_reg_err++;
+      if (!strcmp(var, "flags")) rc = hwloc_shmem_topology_write(P[a].t, G[g].fd, 0, seg_addr(g), len, 1);
+      else if (!strcmp(var, "badfd")) rc = hwloc_shmem_topology_write(P[a].t, -1, 0, seg_addr(g), len, 0);
+      else if (!strcmp(var, "busy")) {
+        void *blk = seg_block(g, len); int e;
+        rc = hwloc_shmem_topology_write(P[a].t, G[g].fd, 0, seg_addr(g), len, 0); e = errno;
+        munmap(blk, len); G[g].written = 0; errno = e;
+      }
+      else return 0;
+    }
+    strcpy(res, errs(rc)); st_reg_shmem++;
+  } else if (!strcmp(op, "adopt")) {
+    int g = b; hwloc_topology_t t = NULL;
+    NEED(PS(g) == S_EMPTY && G[g].written);
+    if (!strcmp(var, "ok")) {
+      rc = hwloc_shmem_topology_adopt(&t, G[g].fd, 0, seg_addr(g), G[g].len, 0);
+      if (!rc) { P[g].t = t; P[g].st = S_ADOPTED; P[g].willfail = P[g].reconf = 0; st_reg_adopt_ok++; }
+    } else {
+      st_reg_err++;
+      if (!strcmp(var, "flags")) rc = hwloc_shmem_topology_adopt(&t, G[g].fd, 0, seg_addr(g), G[g].len, 1);
+      else if (!strcmp(var, "badfd")) rc = hwloc_shmem_topology_adopt(&t, -1, 0, seg_addr(g), G[g].len, 0);
+      else if (!strcmp(var, "badlen")) rc = hwloc_shmem_topology_adopt(&t, G[g].fd, 0, seg_addr(g), G[g].len + 4096, 0);
+      else if (!strcmp(var, "busy")) {
+        void *blk = seg_block(g, G[g].len); int e;
+        rc = hwloc_shmem_topology_adopt(&t, G[g].fd, 0, seg_addr(g), G[g].len, 0); e = errno;
+        munmap(blk, G[g].len); errno = e;
+      }
+      else return 0;
+    }
+    strcpy(res, errs(rc)); st_reg_shmem++;
+  } else return 0;
+  return 1;
+}
+
+static void reg_line(const char *line, char *res) {
+  char op[32], var[32], sa[16], sb[16], cur[64]; unsigned n = 0; int r = 0;
+  if (sscanf(line, "reg %31s %31s %15s %15s users=%u reg=%d", op, var, sa, sb, &n, &r) != 6) { strcpy(res, "bad-op"); return; }
+  users_str(cur);
+  if (strcmp(strstr(line, "users="), cur)) { sprintf(res, "state-mismatch %s", cur); st_mismatch++; return; }
+  if (T) st_reg_with_T++;
+  if (A) st_reg_with_A++;
+  if (!hwloc_components_users) st_reg_users0++;
+  if (pool_has(S_INIT)) st_reg_pool_inited++;
+  if (pool_has(S_CONF)) st_reg_pool_configured++;
+  if (pool_has(S_LOADED)) st_reg_pool_loaded++;
+  if (pool_has(S_ADOPTED)) st_reg_pool_adopted++;
+  if (pool_has(S_FAILED)) st_reg_pool_failed++;
+  if (!reg_exec(op, var, sa, sb, res)) { strcpy(res, "no-slot"); st_reg_noslot++; return; }
+  st_reg++;
+  strcat(res, " "); users_str(res + strlen(res));
+}
+static void pool_cleanup(void) {
+  for (int b = 0; b < NBUF; b++) free_xbuf(b);
+  for (int d = 0; d < NDIFF; d++) if (D[d].used) { hwloc_topology_diff_destroy(D[d].d); D[d].used = 0; }
+  for (int i = 0; i < NSLOT; i++) if (P[i].st != S_EMPTY) { hwloc_topology_destroy(P[i].t); P[i].st = S_EMPTY; }
+  for (int g = 0; g < NSLOT; g++) { if (G[g].fd >= 0) close(G[g].fd); unlink(G[g].path); }
+  unlink(f_topo); unlink(f_diff);
+}
+
 static void exec_line(const char *line) {
   char res[4200] = "bad-op", w1[64] = "", w2[64] = "", w3[64] = "";
   unsigned long long u = 0;
   st_ops++;
+  fprintf(fops, "%s\n", line); fflush(fops);      /* before running it: a crashing op is the last line of the op file */
   if (sscanf(line, "load %llu", &u) == 1) {
     do_load(u, res, 0);
   } else if (sscanf(line, "loadbind %llu", &u) == 1) {
@@ -369,18 +691,25 @@ static void exec_line(const char *line) {
         }
       }
     }
+  } else if (!strncmp(line, "reg ", 4)) {
+    reg_line(line, res);
+  } else if (!strncmp(line, "reglive ", 8)) {
+    unsigned k = 0; char cur[64]; const char *u = strstr(line, "users=");
+    users_str(cur);
+    if (sscanf(line, "reglive %u", &k) != 1 || !u) strcpy(res, "bad-op");
+    else if (strcmp(u, cur) || k != live_refs()) { sprintf(res, "state-mismatch live=%u %s", live_refs(), cur); st_mismatch++; }
+    else { strcpy(res, "consistent"); st_reglive++; }
   } else if (!strcmp(line, "drop")) {
     drop_T(); arena_drop(); strcpy(res, "ok");
   } else if (!strncmp(line, "cinit ", 6) || !strncmp(line, "cfini ", 6)) {
     char cur[64]; users_str(cur);
     if (strcmp(line + 6, cur)) { sprintf(res, "state-mismatch %s", cur); st_mismatch++; }
-    else if (line[1] == 'i') { hwloc_components_init(); users_str(res); st_cinit++; }
-    else if (hwloc_components_users <= (unsigned) ((T ? 1 : 0) + (A ? 1 : 0))) strcpy(res, "unbalanced");
-    else { hwloc_components_fini(); users_str(res); }
+    else if (line[1] == 'i') { hwloc_components_init(); cinit_out++; users_str(res); st_cinit++; }
+    else if (!cinit_out || hwloc_components_users <= (unsigned) ((T ? 1 : 0) + (A ? 1 : 0)) + pool_live()) strcpy(res, "unbalanced");
+    else { hwloc_components_fini(); cinit_out--; users_str(res); }
   }
-  fprintf(fops, "%s\n", line);
   fprintf(fout, "%s\n", res);
-  fflush(fops); fflush(fout);
+  fflush(fout);
 }
 
 /* ------------------------------------------------------------------ generator */
@@ -415,6 +744,125 @@ static void every_entry(void) {
   }
 }
 
+
+/* ---- generator of registry histories: a random FEASIBLE op (every choice from the run's rng) */
+static int pick_slot(int st1, int st2) {      /* a random pool slot in one of two states, -1 if none */
+  int c[NSLOT], n = 0;
+  for (int i = 0; i < NSLOT; i++) if (P[i].st == st1 || P[i].st == st2) c[n++] = i;
+  return n ? c[rng_below((unsigned) n)] : -1;
+}
+static int pick_buf(int kind) { int c[NBUF], n = 0; for (int i = 0; i < NBUF; i++) if (X[i].kind == kind) c[n++] = i; return n ? c[rng_below((unsigned) n)] : -1; }
+static int pick_diff(int used, int complex) {
+  int c[NDIFF], n = 0;
+  for (int i = 0; i < NDIFF; i++) if (D[i].used == used && (!used || complex < 0 || D[i].complex == complex)) c[n++] = i;
+  return n ? c[rng_below((unsigned) n)] : -1;
+}
+#define PICK(arr) (arr)[rng_below(sizeof (arr) / sizeof *(arr))]
+static int gen_reg_op(char *out) {
+  static const char *complexv[] = { "hand-complex-first", "hand-complex-mid", "hand-complex-last", "hand-complex-only" };
+  char sa[16] = "-", sb[16] = "-"; const char *op = "", *var = "-"; int a, b, g;
+  unsigned w = rng_below(100);
+  if (pool_live() >= 3 && rng_chance(10 * pool_live())) w = 40;     /* keep free slots: destroy more often when the pool is full */
+#define SA(i) sprintf(sa, "%d", (i))
+#define SB(i) sprintf(sb, "%d", (i))
+  if (w < 9) { if ((a = pick_slot(S_EMPTY, S_EMPTY)) < 0) return 0; op = "init"; SA(a); }
+  else if (w < 20) {
+    static const char *v[] = { "synth-ok", "synth-ok", "synth-ok", "synth-bad", "xml-ok", "xml-nofile", "xmlbuf-ok", "xmlbuf-bad", "xmlbuf-loadfail" };
+    if ((a = pick_slot(S_INIT, rng_chance(25) ? S_CONF : S_INIT)) < 0) return 0;
+    op = "setsrc"; var = PICK(v); SA(a);
+    if (!strcmp(var, "synth-ok")) SB((int) rng_below(10));
+    if (!strcmp(var, "xml-ok") && !topofile_ok) return 0;
+    if (!strcmp(var, "xmlbuf-ok")) { if ((b = pick_buf(1)) < 0) return 0; SB(b); }
+  } else if (w < 22) {
+    static const char *v[] = { "ok", "unknown", "badflags" };
+    if ((a = pick_slot(S_INIT, S_CONF)) < 0) return 0;
+    op = "setcomp"; var = PICK(v); SA(a);
+  } else if (w < 32) {
+    op = "load";
+    if (rng_chance(15)) { if ((a = pick_slot(S_LOADED, S_ADOPTED)) < 0) return 0; var = "busy"; }
+    else if (rng_chance(4)) { if ((a = pick_slot(S_INIT, S_INIT)) < 0) return 0; var = "native"; }
+    else { if ((a = pick_slot(S_CONF, S_CONF)) < 0 || P[a].reconf) return 0; var = P[a].willfail ? "fail" : "ok"; }
+    SA(a);
+  } else if (w < 37) {
+    op = "dup"; if ((b = pick_slot(S_EMPTY, S_EMPTY)) < 0) return 0; SB(b);
+    if (rng_chance(25)) { if ((a = pick_slot(S_INIT, S_CONF)) < 0) return 0; var = "unloaded"; SA(a); }
+    else if (T && rng_chance(30)) { var = "ok"; strcpy(sa, "T"); }
+    else { if ((a = pick_slot(S_LOADED, S_ADOPTED)) < 0) return 0; var = "ok"; SA(a); }
+  } else if (w < 48) {
+    int c[NSLOT], n = 0;
+    for (int i = 0; i < NSLOT; i++) if (P[i].st != S_EMPTY) c[n++] = i;
+    if (!n) return 0;
+    a = c[rng_below((unsigned) n)]; op = "destroy"; var = SNAME[P[a].st]; SA(a);
+  } else if (w < 54) {
+    static const char *v[] = { "buf", "buf", "file", "badflags" };
+    if ((a = pick_slot(S_LOADED, S_ADOPTED)) < 0) return 0;
+    op = "export"; var = PICK(v); SA(a);
+    if (!strcmp(var, "buf")) { if ((b = pick_buf(0)) < 0) return 0; SB(b); }
+  } else if (w < 58) {
+    int k = rng_chance(50) ? 1 : 2;
+    if (!hwloc_components_users || (b = pick_buf(k)) < 0) return 0;
+    op = "freebuf"; SB(b);
+  } else if (w < 63) {
+    static const char *v[] = { "same", "mem", "complex", "complex" };
+    if ((a = pick_slot(S_LOADED, S_LOADED)) < 0 || (b = pick_diff(0, -1)) < 0) return 0;
+    op = "diffbuild"; var = PICK(v); SA(a); SB(b);
+  } else if (w < 80) {
+    int file = rng_chance(35), needbuf = 0;
+    op = file ? "diffexpfile" : "diffexpbuf";
+    switch (rng_below(8)) {
+    case 0: var = "empty"; needbuf = 1; break;
+    case 1: var = "hand-attrs"; needbuf = 1; break;
+    case 2: case 3: var = PICK(complexv); break;
+    case 4: case 5: if ((a = pick_diff(1, 1)) < 0) { var = PICK(complexv); break; } var = "slot-complex"; SA(a); break;
+    case 6: if ((a = pick_diff(1, 0)) < 0) return 0; var = "slot-ok"; SA(a); needbuf = 1; break;
+    default: if (!file) return 0; var = "unwritable"; break;
+    }
+    if (needbuf && !file) { if ((b = pick_buf(0)) < 0) return 0; SB(b); }
+  } else if (w < 87) {
+    if (rng_chance(35)) {
+      static const char *v[] = { "ok", "nofile", "notdiff" };
+      op = "diffloadfile"; var = PICK(v);
+      if ((!strcmp(var, "ok") && !difffile_ok) || (!strcmp(var, "notdiff") && !topofile_ok)) return 0;
+    } else {
+      static const char *v[] = { "ok", "ok", "trunc", "notdiff", "garbage", "empty" };
+      op = "diffloadbuf"; var = PICK(v);
+      if (!strcmp(var, "ok") || !strcmp(var, "trunc")) { if ((b = pick_buf(2)) < 0) return 0; SB(b); }
+      if (!strcmp(var, "notdiff")) { if ((b = pick_buf(1)) < 0) return 0; SB(b); }
+    }
+  } else if (w < 90) { if ((b = pick_diff(1, -1)) < 0) return 0; op = "diffdestroy"; SB(b); }
+  else if (w < 92) { if ((a = pick_slot(S_LOADED, S_LOADED)) < 0) return 0; op = "getlen"; var = rng_chance(50) ? "ok" : "flags"; SA(a); }
+  else if (w < 96) {
+    static const char *v[] = { "ok", "ok", "ok", "flags", "badfd", "busy" };
+    if ((a = pick_slot(S_LOADED, S_LOADED)) < 0 || (g = pick_slot(S_EMPTY, S_EMPTY)) < 0) return 0;
+    op = "shmwrite"; var = PICK(v); SA(a); SB(g);
+  } else {
+    static const char *v[] = { "ok", "ok", "ok", "flags", "badfd", "badlen", "busy" };
+    int c[NSLOT], n = 0;
+    for (int i = 0; i < NSLOT; i++) if (P[i].st == S_EMPTY && G[i].written) c[n++] = i;
+    if (!n) return 0;
+    op = "adopt"; var = PICK(v); SB(c[rng_below((unsigned) n)]);
+  }
+  sprintf(out, "reg %s %s %s %s ", op, var, sa, sb); users_str(out + strlen(out));
+  return 1;
+}
+static void emit_reglive(void) {
+  char line[128];
+  sprintf(line, "reglive %u ", live_refs()); users_str(line + strlen(line)); exec_line(line);
+}
+static void reg_history(unsigned n) {
+  char line[256];
+  if (rng_chance(15))              /* tear the whole pool down: the following ops start from (possibly) an empty registry */
+    for (int i = 0; i < NSLOT; i++) if (P[i].st != S_EMPTY) {
+      sprintf(line, "reg destroy %s %d - ", SNAME[P[i].st], i); users_str(line + strlen(line)); exec_line(line);
+    }
+  for (unsigned i = 0, tries = 0; i < n && tries < 40 * n; tries++) {
+    if (!gen_reg_op(line)) continue;
+    exec_line(line); i++;
+    if (rng_chance(12)) emit_reglive();
+  }
+  emit_reglive();
+}
+
 static void episode(uint64_t eseed) {
   char line[128];
   unsigned nc;
@@ -422,6 +870,7 @@ static void episode(uint64_t eseed) {
   sprintf(line, "%s %llu", bind ? "loadbind" : "load", (unsigned long long) eseed); exec_line(line);
   if (!T) return;
   emit_state("observe after-load", T);
+  if (rng_chance(50)) reg_history(2 + rng_below(6));       /* T alive: loaded, unmodified */
   if (rng_chance(15)) {            /* straight after load: a refreshed-by-load topology */
     exec_line("arena unrefreshed");
     nc = 4 + rng_below(6); for (unsigned i = 0; i < nc; i++) emit_call("call", A);
@@ -431,11 +880,13 @@ static void episode(uint64_t eseed) {
   nc = rng_below(4);
   for (unsigned i = 0; i < nc; i++) emit_call("wcall", T);
   if (rng_chance(30)) { sprintf(line, "mods %llu", (unsigned long long) eseed + 77); exec_line(line); }
+  if (rng_chance(35)) reg_history(2 + rng_below(5));       /* T alive: modified, unrefreshed */
   emit_state("refresh", T);
   emit_state("observe after-refresh", T);
   /* positive: refreshed copy, every entry point */
   exec_line("arena refreshed");
   every_entry();
+  if (rng_chance(50)) reg_history(2 + rng_below(6));       /* T and its read-only copy A alive */
   nc = 6 + rng_below(10); for (unsigned i = 0; i < nc; i++) emit_call("call", A);
   /* negative control / partial validity */
   if (rng_chance(50)) exec_line("arena unrefreshed");
@@ -446,8 +897,11 @@ static void episode(uint64_t eseed) {
     unsigned k = 1 + rng_below(3);
     if (rng_chance(50)) exec_line("drop");       /* from an empty registry: the initialising / destroying paths */
     for (unsigned i = 0; i < k; i++) emit_users("cinit");
+    if (rng_chance(50)) reg_history(1 + rng_below(5));     /* bare registry references outstanding */
     for (unsigned i = 0; i < k; i++) emit_users("cfini");
   }
+  if (rng_chance(30)) exec_line("drop");
+  reg_history(3 + rng_below(8));                           /* possibly nothing but the pool alive (users may be 0) */
 }
 
 static void warm_up(void) {
@@ -472,6 +926,7 @@ int main(int argc, char **argv) {
   scan_xml();
   replaying = !strcmp(argv[1], "--replay");
   snprintf(scratch, sizeof scratch, "%s.scratch.xml", argv[3]);
+  reg_setup(argv[3]);
   warm_up();
   if (replaying) {
     FILE *in = fopen(argv[2], "r"); char line[8192], eff[600];
@@ -491,7 +946,8 @@ int main(int argc, char **argv) {
     fops = fopen(argv[2], "w"); fout = fopen(argv[3], "w");
     while (st_ops < nops) episode(rng_next() % 1000000007ULL);
   }
-  drop_T(); arena_drop();
+  pool_cleanup(); drop_T(); arena_drop();
+  while (cinit_out) { hwloc_components_fini(); cinit_out--; }     /* a shrunk replay may have lost its cfini lines */
   { char r[64]; users_str(r); if (strcmp(r, "users=0 reg=0")) { fprintf(stderr, "registry not torn down at exit: %s\n", r); return 3; } }
   fclose(fops); fclose(fout); unlink(scratch);
   if (!replaying && argc > 4) {
@@ -499,6 +955,9 @@ int main(int argc, char **argv) {
 #define S(n) fprintf(f, #n " %lu\n", st_##n)
     S(ops); S(load); S(load_xml); S(load_synth); S(mods); S(calls); S(ro); S(wdist); S(wattr); S(wother); S(wcall); S(refresh);
     S(arena_ref); S(arena_unref); S(arena_partial); S(cinit); S(dists); S(attrs_user); S(restrict); S(mismatch); S(loadbind); S(loadflags);
+    S(reg); S(reg_err); S(reg_toocomplex); S(reg_with_T); S(reg_with_A); S(reg_users0); S(reg_pool_inited); S(reg_pool_configured);
+    S(reg_pool_loaded); S(reg_pool_adopted); S(reg_pool_failed); S(reglive); S(reg_noslot); S(reg_init); S(reg_destroy); S(reg_dup);
+    S(reg_setsrc); S(reg_load); S(reg_export); S(reg_diffbuild); S(reg_diffexp); S(reg_diffload); S(reg_shmem); S(reg_adopt_ok);
     fclose(f);
   }
   return 0;
